@@ -213,6 +213,8 @@ def gen(rng, tier):
         k += 1
         if k % 10 == 0:
             yield gen_timer(rng)
+        elif k in (15, 215, 415, 615):
+            yield svcref.gen_backlog(rng)           # SCALE: ops behind 1000..3000 queued tasks (a few per run)
         elif k % 9 == 4:
             yield gen_thread(rng)
         elif k % 50 == 7:
@@ -228,6 +230,9 @@ def search(rng, tier):
         k += 1
         if k % 8 == 0:
             yield gen_timer(rng)
+            continue
+        if k % 40 == 5:
+            yield svcref.gen_backlog(rng)
             continue
         if k % 8 == 3:
             yield gen_thread(rng)
@@ -332,6 +337,9 @@ def corpus():
         {'kind': 'thread', 'interval': 3, 'evs': [
             {'ev': 'tick', 'op': _upd('h1', 1, ('a.py', 1, 's1'))}, {'ev': 'stop'},
             {'ev': 'tick', 'op': _upd('h2', 3, ('a.py', 2, 's2'))}, {'ev': 'stop'}]},
+        # SCALE: an update and a registration behind 1100 queued tasks
+        {'kind': 'backlog', 'n': 1100, 'ops': [_upd('h1', 1, ('a.py', 1, 's1')),
+                                               {'op': 'register', 'path': 'a.py', 'line': 1, 'tag': 'w1', 'args': {}}]},
         # D23: text interval
         {'kind': 'timer', 'interval': '0.01', 'script': [{'op': 'pollFail', 'base': False, 'how': 'rpc'},
                                                          _upd('h1', 1, ('a.py', 1, 's1'))]},
@@ -397,6 +405,8 @@ def run_impl(case):
         return run_timer(case)
     if case['kind'] == 'preempt':
         return svcbench.run_preempt(case)
+    if case['kind'] == 'backlog':
+        return svcbench.run_backlog(case)
     if case['kind'] == 'thread':
         return svcbench.run_thread(case)
     return svcbench.run_ops(case['ops'])
@@ -540,6 +550,8 @@ def oracle_thread(case, obs):
 
 
 def oracle(case, obs):
+    if case['kind'] == 'backlog':
+        return svcref.backlog_oracle(case, obs)
     if case['kind'] == 'thread':
         return oracle_thread(case, obs)
     if case['kind'] == 'preempt':
@@ -606,6 +618,8 @@ def compare_thread(case, obs, resp):
 
 
 def model_request(case, obs):
+    if case['kind'] == 'backlog':
+        return svcref.backlog_request(case)
     if case['kind'] == 'thread':
         return {'evs': thread_model_evs(case)}
     if case['kind'] == 'preempt':
@@ -616,6 +630,8 @@ def model_request(case, obs):
 
 
 def compare(case, obs, resp):
+    if case['kind'] == 'backlog':
+        return svcref.backlog_compare(case, obs, resp)
     if case['kind'] == 'thread':
         return compare_thread(case, obs, resp)
     if case['kind'] == 'seq':
@@ -659,6 +675,8 @@ def _fail_after_good(case):
 
 
 def label(case, obs):
+    if case['kind'] == 'backlog':
+        return 'scale/backlog-%s' % ('1000+' if case['n'] >= 1000 else 'small')
     if case['kind'] == 'preempt':
         return 'preempt/%s-vs-%s/%s' % (case['victim']['op'], case['intruder']['op'],
                                         'parked' if obs.get('reached') else 'beyond-last-line')
@@ -691,6 +709,8 @@ def label(case, obs):
 
 
 def nontrivial(case, obs):
+    if case['kind'] == 'backlog':
+        return True
     if case['kind'] == 'preempt':
         return bool(obs.get('reached'))
     if case['kind'] == 'timer':
@@ -701,6 +721,11 @@ def nontrivial(case, obs):
 
 
 def shrink(case):
+    if case['kind'] == 'backlog':
+        for i in range(len(case['ops']) - 1, -1, -1):
+            if len(case['ops']) > 1 and case['ops'][i]['op'] != 'register':
+                yield dict(case, ops=case['ops'][:i] + case['ops'][i + 1:])
+        return
     if case['kind'] == 'preempt':
         return
     if case['kind'] == 'thread':
